@@ -24,7 +24,7 @@ from sim.oracle import STAT_FIELDS, arrays_equal, first_diff, missed_tuple, num_
 
 PROPERTY = "C05"
 LEVEL = "exploration"
-RUNS = {"quick": 40000, "thorough": 1000000}
+RUNS = {"quick": 60000, "thorough": 1000000}
 WALL = {"quick": 240, "thorough": 1500}
 PARTITIONS = [{"name": "default", "env": {}}]
 FAULT_KINDS = ["shared_binning_object", "accumulate_into_result", "operand_swap", "tree_shape", "empty_partial", "dtype_mix", "adaptive_union", "refusal_probe",
